@@ -39,7 +39,7 @@ def run(sc):
                     # parsing disabled
                     msg2 = TaskiqMessage(task_id='i', task_name='t', labels={}, args=list(args), kwargs=dict(kwargs)); parse_params(None, hints, msg2)
                     if msg2.args != args or msg2.kwargs != kwargs: fails.append({'key': 'disabled', 'failed_clauses': ["C08: parsing disabled but arguments changed"]})
-    return {'reproduced': bool(fails), 'runs': n, 'n_failures': len(fails), 'failures': fails[:5], 'bound': 'signatures with <= 3 positional-or-keyword parameters, values from ["3","x",None,7]'}
+    return {'reproduced': bool(fails), 'runs': n, 'n_failures': len(fails), 'failures': fails[:400], 'bound': 'signatures with <= 3 positional-or-keyword parameters, values from ["3","x",None,7]'}
 
 if __name__ == '__main__':
     sc = json.load(open(sys.argv[1])) if len(sys.argv) > 1 else {}
